@@ -10,9 +10,15 @@ Spec.vos Spec.vok Spec.required_vos: Spec.v Model.vos
 Proofs.vo Proofs.glob Proofs.v.beautified Proofs.required_vo: Proofs.v ../Common/Base.vo Model.vo Spec.vo
 Proofs.vio: Proofs.v ../Common/Base.vio Model.vio Spec.vio
 Proofs.vos Proofs.vok Proofs.required_vos: Proofs.v ../Common/Base.vos Model.vos Spec.vos
+Prog.vo Prog.glob Prog.v.beautified Prog.required_vo: Prog.v ../Common/Base.vo Model.vo
+Prog.vio: Prog.v ../Common/Base.vio Model.vio
+Prog.vos Prog.vok Prog.required_vos: Prog.v ../Common/Base.vos Model.vos
+ProgProofs.vo ProgProofs.glob ProgProofs.v.beautified ProgProofs.required_vo: ProgProofs.v ../Common/Base.vo Model.vo Spec.vo Proofs.vo Prog.vo
+ProgProofs.vio: ProgProofs.v ../Common/Base.vio Model.vio Spec.vio Proofs.vio Prog.vio
+ProgProofs.vos ProgProofs.vok ProgProofs.required_vos: ProgProofs.v ../Common/Base.vos Model.vos Spec.vos Proofs.vos Prog.vos
 Properties.vo Properties.glob Properties.v.beautified Properties.required_vo: Properties.v Model.vo Spec.vo Proofs.vo
 Properties.vio: Properties.v Model.vio Spec.vio Proofs.vio
 Properties.vos Properties.vok Properties.required_vos: Properties.v Model.vos Spec.vos Proofs.vos
-PropertiesC04.vo PropertiesC04.glob PropertiesC04.v.beautified PropertiesC04.required_vo: PropertiesC04.v Model.vo Spec.vo Proofs.vo
-PropertiesC04.vio: PropertiesC04.v Model.vio Spec.vio Proofs.vio
-PropertiesC04.vos PropertiesC04.vok PropertiesC04.required_vos: PropertiesC04.v Model.vos Spec.vos Proofs.vos
+PropertiesC04.vo PropertiesC04.glob PropertiesC04.v.beautified PropertiesC04.required_vo: PropertiesC04.v Model.vo Spec.vo Proofs.vo Prog.vo ProgProofs.vo
+PropertiesC04.vio: PropertiesC04.v Model.vio Spec.vio Proofs.vio Prog.vio ProgProofs.vio
+PropertiesC04.vos PropertiesC04.vok PropertiesC04.required_vos: PropertiesC04.v Model.vos Spec.vos Proofs.vos Prog.vos ProgProofs.vos
